@@ -91,138 +91,6 @@ broadcast proof fn lemma_suffix_step(s: Seq<char>, p: int)
     }
 }
 
-// ======================================================================================
-// O-dt over characters: the four date-time shapes of the TOML 1.0.0 ABNF / RFC 3339
-spec fn is_dig(c: char) -> bool { '0' <= c && c <= '9' }
-spec fn dv(c: char) -> int { c as u32 as int - 0x30 }
-spec fn two_ok(s: Seq<char>, i: int) -> bool { 0 <= i && i + 2 <= s.len() && is_dig(s[i]) && is_dig(s[i + 1]) }
-spec fn two_v(s: Seq<char>, i: int) -> int { dv(s[i]) * 10 + dv(s[i + 1]) }
-
-spec fn is_leap(y: int) -> bool { y % 4 == 0 && (y % 100 != 0 || y % 400 == 0) }
-spec fn days_in_month(y: int, m: int) -> int {
-    if m == 1 || m == 3 || m == 5 || m == 7 || m == 8 || m == 10 || m == 12 { 31 }
-    else if m == 4 || m == 6 || m == 9 || m == 11 { 30 }
-    else if m == 2 { if is_leap(y) { 29 } else { 28 } }
-    else { 0 }
-}
-spec fn valid_date(y: int, m: int, d: int) -> bool { 1 <= m <= 12 && 1 <= d <= days_in_month(y, m) }
-spec fn valid_time(h: int, mi: int, s: int) -> bool { h <= 23 && mi <= 59 && s <= 60 }
-spec fn valid_offset(h: int, mi: int) -> bool { h <= 23 && mi <= 59 }
-spec fn time_delim(c: char) -> bool { c == 'T' || c == 't' || c == ' ' }
-
-// full-date = date-fullyear "-" date-month "-" date-mday, at position i (10 characters)
-spec fn sp_date(s: Seq<char>, i: int) -> Option<(int, int, int)> {
-    if 0 <= i && s.len() >= i + 10 && two_ok(s, i) && two_ok(s, i + 2) && s[i + 4] == '-' && two_ok(s, i + 5)
-        && s[i + 7] == '-' && two_ok(s, i + 8) {
-        let y = two_v(s, i) * 100 + two_v(s, i + 2);
-        let m = two_v(s, i + 5);
-        let d = two_v(s, i + 8);
-        if valid_date(y, m, d) { Some((y, m, d)) } else { None }
-    } else { None }
-}
-
-// end of the maximal digit run starting at j
-spec fn frac_end(s: Seq<char>, j: int) -> int
-    decreases s.len() - j
-{
-    if 0 <= j && j < s.len() && is_dig(s[j]) { frac_end(s, j + 1) } else { j }
-}
-
-// secfrac: the first nine digits of s[start..end], right-padded with zeros (truncation)
-spec fn frac_val(s: Seq<char>, start: int, end: int, k: int) -> int
-    decreases 9 - k
-{
-    if k >= 9 || start + k >= end { 0 } else { dv(s[start + k]) * ipow(10, (8 - k) as nat) + frac_val(s, start, end, k + 1) }
-}
-
-// partial-time = time-hour ":" time-minute ":" time-second [ "." 1*DIGIT ]; returns fields and end
-spec fn sp_time(s: Seq<char>, i: int) -> Option<((int, int, int, int), int)> {
-    if 0 <= i && s.len() >= i + 8 && two_ok(s, i) && s[i + 2] == ':' && two_ok(s, i + 3) && s[i + 5] == ':' && two_ok(s, i + 6)
-        && valid_time(two_v(s, i), two_v(s, i + 3), two_v(s, i + 6)) {
-        if s.len() > i + 8 && s[i + 8] == '.' {
-            let e = frac_end(s, i + 9);
-            if e == i + 9 { None } else { Some(((two_v(s, i), two_v(s, i + 3), two_v(s, i + 6), frac_val(s, i + 9, e, 0)), e)) }
-        } else {
-            Some(((two_v(s, i), two_v(s, i + 3), two_v(s, i + 6), 0int), i + 8))
-        }
-    } else { None }
-}
-
-// time-offset = "Z" / ( "+" / "-" ) time-hour ":" time-minute; None inside: Z
-spec fn sp_offset(s: Seq<char>, i: int) -> Option<(Option<int>, int)> {
-    if 0 <= i && i < s.len() && (s[i] == 'Z' || s[i] == 'z') { Some((None::<int>, i + 1)) }
-    else if 0 <= i && s.len() >= i + 6 && (s[i] == '+' || s[i] == '-') && two_ok(s, i + 1) && s[i + 3] == ':' && two_ok(s, i + 4)
-        && valid_offset(two_v(s, i + 1), two_v(s, i + 4)) {
-        let mag = two_v(s, i + 1) * 60 + two_v(s, i + 4);
-        Some((Some(if s[i] == '+' { mag } else { -mag }), i + 6))
-    } else { None }
-}
-
-struct DtView {
-    date: Option<(int, int, int)>,
-    time: Option<(int, int, int, int)>,
-    offset: Option<Option<int>>,
-}
-
-#[verifier::opaque]
-spec fn sp_datetime(s: Seq<char>) -> Option<DtView> {
-    match sp_date(s, 0) {
-        Some(d) => {
-            if s.len() == 10 { Some(DtView { date: Some(d), time: None, offset: None }) }
-            else if !time_delim(s[10]) { None }
-            else {
-                match sp_time(s, 11) {
-                    None => None,
-                    Some((t, j)) => {
-                        if j == s.len() { Some(DtView { date: Some(d), time: Some(t), offset: None }) }
-                        else {
-                            match sp_offset(s, j) {
-                                None => None,
-                                Some((o, k)) => if k == s.len() { Some(DtView { date: Some(d), time: Some(t), offset: Some(o) }) } else { None },
-                            }
-                        }
-                    }
-                }
-            }
-        }
-        None => {
-            match sp_time(s, 0) {
-                Some((t, j)) => if j == s.len() { Some(DtView { date: None, time: Some(t), offset: None }) } else { None },
-                None => None,
-            }
-        }
-    }
-}
-
-// the definition of sp_datetime, case by case, over the terms the parser computes
-proof fn lemma_dt_cases(s: Seq<char>)
-    ensures
-        s.len() < 8 ==> sp_datetime(s) is None,
-        sp_date(s, 0) is None && sp_time(s, 0) is None ==> sp_datetime(s) is None,
-        // time only
-        sp_date(s, 0) is None && sp_time(s, 0) is Some ==> (
-            sp_datetime(s) == (if (sp_time(s, 0)->0).1 == s.len() {
-                Some(DtView { date: None, time: Some((sp_time(s, 0)->0).0), offset: None })
-            } else { None::<DtView> })),
-        // date first
-        sp_date(s, 0) is Some ==> s.len() >= 10,
-        sp_date(s, 0) is Some && s.len() == 10 ==>
-            sp_datetime(s) == Some(DtView { date: sp_date(s, 0), time: None, offset: None }),
-        sp_date(s, 0) is Some && s.len() > 10 && !time_delim(s[10]) ==> sp_datetime(s) is None,
-        sp_date(s, 0) is Some && s.len() > 10 && time_delim(s[10]) && sp_time(s, 11) is None ==> sp_datetime(s) is None,
-        sp_date(s, 0) is Some && s.len() > 10 && time_delim(s[10]) && sp_time(s, 11) is Some ==> ({
-            let t = (sp_time(s, 11)->0).0;
-            let j = (sp_time(s, 11)->0).1;
-            &&& (j == s.len() ==> sp_datetime(s) == Some(DtView { date: sp_date(s, 0), time: Some(t), offset: None }))
-            &&& (j != s.len() && sp_offset(s, j) is None ==> sp_datetime(s) is None)
-            &&& (j != s.len() && sp_offset(s, j) is Some ==> sp_datetime(s) == (if (sp_offset(s, j)->0).1 == s.len() {
-                    Some(DtView { date: sp_date(s, 0), time: Some(t), offset: Some((sp_offset(s, j)->0).0) })
-                } else { None::<DtView> }))
-        }),
-{
-    reveal(sp_datetime);
-}
-
 spec fn view_date(d: Option<Date>) -> Option<(int, int, int)> {
     match d { Some(x) => Some((x.year as int, x.month as int, x.day as int)), None => None }
 }
@@ -736,3 +604,27 @@ proof fn lemma_fraction(s: Seq<char>, p: int, w: Seq<char>, wb: Seq<u8>, end: in
 
 //@ attr Datetime::from_str
 #[verifier::rlimit(300)]
+
+//@ main
+// Fidelity battery: runs the EXTRACTED `from_str` (compiled by `verus --compile`) on the same
+// battery as `verif_replay fidelity-v5` runs the real crate on, and prints the same digest.
+include!("@VERIF@/specs/shared/battery_dt.rs");
+
+fn main() {
+    let b = dt_battery();
+    let mut h = 0xcbf29ce484222325u64;
+    let mut ok = 0usize;
+    for s in &b {
+        match Datetime::from_str(s) {
+            Ok(d) => {
+                ok += 1;
+                let date = d.date.map(|x| (x.year, x.month, x.day));
+                let time = d.time.map(|t| (t.hour, t.minute, t.second, t.nanosecond));
+                let offset = d.offset.map(|o| match o { Offset::Z => None, Offset::Custom { minutes } => Some(minutes) });
+                dt_fnv1a(&mut h, format!("{:?}|{:?}|{:?}", date, time, offset).as_bytes());
+            }
+            Err(_) => dt_fnv1a(&mut h, b"<err>"),
+        }
+    }
+    println!("battery {} accepted {} digest {:016x}", b.len(), ok, h);
+}
